@@ -1164,6 +1164,10 @@ func c04Catalogue() []*c04fn {
 		{Name: "fvE", Params: []int{100}, PTypes: []*c04ty{c04TA3E}, RetT: c04TA3E, Ret: c04Load(x0(c04TA3E)),
 			Body: []*c04op{asg(c04Idx(x0(c04TA3E), c04IntLit(0)), c04Box(c04IntLit(99)))}},
 		{Name: "fE", Params: []int{100}, PTypes: []*c04ty{c04TAny}, RetT: c04TAny, Ret: c04Load(x0(c04TAny))},
+		// the parameter escapes: every call yields a pointer to a parameter of its own
+		{Name: "fhold", Params: []int{100}, PTypes: []*c04ty{c04TS}, RetT: c04TPS, Ret: c04Addr(x0(c04TS))},
+		{Name: "fholdA", Params: []int{100}, PTypes: []*c04ty{c04TA3S}, RetT: c04TPA, Ret: c04Addr(x0(c04TA3S)),
+			Body: []*c04op{asg(c04Fld(c04Idx(x0(c04TA3S), c04IntLit(1)), 0), c04Add(c04Load(c04Fld(c04Idx(x0(c04TA3S), c04IntLit(1)), 0)), c04IntLit(7)))}},
 		{Name: "fpp", Params: []int{100}, PTypes: []*c04ty{c04TPS}, RetT: c04TPS, Ret: c04Load(c04Fld(c04Deref(c04Load(x0(c04TPS))), 4))},
 	}
 }
